@@ -21,5 +21,5 @@ SPEC = dict(
         "hand-written model coq/models/SnapSeq.v (see checks/c10.py), tied by the differential run of the shared driver harness/overlay/overlord/snapstate/zz_verif_c10_test.go: every step's task chain, refusal and resulting state are compared with the model's",
         "the package's test fakes (fakeSnappyBackend, fakeStore, snapmgrBaseTest set-up): the system-visible side is what snapd ASKS the backend to do",
     ],
-    assumptions=['PARTIAL: retain resolution proved in full; the garbage-collected set is characterised (and never contains target, current or in-use revisions) for refreshes to a not-yet-kept revision; refreshes to a kept revision and the final count are monitored on the implementation only', "no revision is in use for booting in the driver's runs (app snap on the fake backend): the in-use branch of the garbage collection is proved on the model but not tied to boot.InUse", 'retain values outside 2..20 (rejected by configcore validation) are not generated'],
+    assumptions=['retain resolution, the exact garbage-collected set for refreshes to new AND to kept revisions (before/after current), never target/current/in-use, leftovers after current discarded, and the count (<= kept before for a kept target, <= retain for a new one when no candidate is in use) are proved on the model for retain >= 2; with in-use revisions among the candidates no count is stated (the characterisation says which ones stay)', "no revision is in use for booting in the driver's runs (app snap on the fake backend): the in-use branch of the garbage collection is proved on the model but not tied to boot.InUse", 'retain values outside 2..20 (rejected by configcore validation) are not generated'],
 )
